@@ -123,10 +123,12 @@ def fix_atomic_specifiers(
     """
     # There can be multiple levels of _Atomic in a decl; fix them until a
     # fixed point is reached.
+    fixed = False
     while True:
         decl, found = _fix_atomic_specifiers_once(decl)
         if not found:
             break
+        fixed = True
 
     # Make sure to add an _Atomic qual on the topmost decl if needed. Also
     # restore the declname on the innermost TypeDecl (it gets placed in the
@@ -137,7 +139,13 @@ def fix_atomic_specifiers(
             typ = typ.type
         except AttributeError:
             return decl
-    if "_Atomic" in typ.quals and "_Atomic" not in decl.quals:
+    if fixed:
+        # As for every other declaration, the qualifiers of the decl are those
+        # of its base type: after the splice these are the qualifiers found
+        # inside the _Atomic(...) specifier, not the ones written next to it
+        # (which now qualify the spliced-in type).
+        decl.quals = typ.quals[:]
+    elif "_Atomic" in typ.quals and "_Atomic" not in decl.quals:
         decl.quals.append("_Atomic")
     if typ.declname is None:
         typ.declname = decl.name
